@@ -2,6 +2,8 @@ import CogentModel.Model.AtomicWrite
 import CogentModel.Model.Composable
 import CogentModel.Proofs.AtomicWriteLemmas
 import CogentModel.Proofs.ComposableLemmas
+import CogentModel.Model.StoreWrite
+import CogentModel.Proofs.StoreWriteLemmas
 /-! # C19 — file writes are all-or-nothing; interrupted runs resume to the same result
 
 `j.cfg` (`Job.cfg`) is THE model of the code as it is now: one-call commit (`src.replace(dest)`),
@@ -148,6 +150,116 @@ def exApp : Nat → Val := fun m => if m = 22 then .nc ⟨.error, 2, .exc 1, som
 example := resume_same_store (fun m => m % 10) exApp [] [11, 22, 33] [(1, 11), (2, 22), (3, 33)] (by decide)
     [(33, exApp 33), (22, exApp 22), (11, exApp 11)] (by decide) 2
     [(1, 11), (2, 22)] (by decide) [(22, exApp 22), (11, exApp 11)] (by decide)
+
+/-! ## zip-member target under a raised OSError (handlers as they are) -/
+
+/-- What IS guaranteed for `atomic_write(member, in_zip=archive)` when a call raises: no path under the
+temp dir remains whichever call it is; if the failing call comes before the append (mkdtemp, open,
+any data write, close) the destination — the archive with all its members — is untouched. -/
+theorem zip_member_fault (j : Job) (fs : FS) (h : WF j.cfg fs) (m : Nat) (hz : j.zipMember = some m)
+    (ms : List (Nat × Data)) (hold : fs j.cfg.dest = some (.archive ms false)) (k : Nat)
+    (hk : k ≤ (pre j.cfg).length + 1) :
+    (∀ p, under j.cfg.tmpdir p = true → faultState j.cfg fs k p = none) ∧
+    (k < (pre j.cfg).length → faultState j.cfg fs k j.cfg.dest = fs j.cfg.dest) := by
+  by_cases h1 : k < (pre j.cfg).length
+  · have := fault_before_commit j.cfg fs h rfl rfl rfl k h1
+    exact ⟨this.2, fun _ => this.1⟩
+  · by_cases h2 : k = (pre j.cfg).length
+    · subst h2
+      exact ⟨(fault_at_zipData j.cfg fs h m rfl hz ms hold).2, fun hh => absurd hh h1⟩
+    · have : k = (pre j.cfg).length + 1 := by omega
+      subst this
+      exact ⟨(fault_at_zipDir j.cfg fs h m rfl hz ms hold).2, fun hh => absurd hh h1⟩
+
+/- FULL STATEMENT (not proved): `faultState … dest = fs dest` for every `k` (as `fault_leaves_old_and_no_temp`
+   says for plain targets).  False at the two calls of the append, see `zip_member_fault_counter`. -/
+
+/-- …and what is NOT: an OSError while opening the archive for append is swallowed by `zipfile` itself,
+which retries in mode 'w+b' — the write reports success with an archive holding ONLY the new member (all
+previous members lost); an OSError while writing the central directory leaves the archive unreadable. -/
+theorem zip_member_fault_counter (j : Job) (fs : FS) (h : WF j.cfg fs) (m : Nat) (hz : j.zipMember = some m)
+    (ms : List (Nat × Data)) (hold : fs j.cfg.dest = some (.archive ms false)) :
+    faultState j.cfg fs (pre j.cfg).length j.cfg.dest = some (.archive [(m, j.cfg.newData)] false) ∧
+    readable (faultState j.cfg fs ((pre j.cfg).length + 1) j.cfg.dest) = none :=
+  ⟨(fault_at_zipData j.cfg fs h m rfl hz ms hold).1, (fault_at_zipDir j.cfg fs h m rfl hz ms hold).1⟩
+
+example : faultState { exJob with zipMember := some 8 }.cfg exFSzip 5 [0, 1] = some (.archive [(8, [5, 6, 7])] false) ∧
+    faultState { exJob with zipMember := some 8 }.cfg exFSzip 3 [0, 1] = some (.archive [(4, [1])] false) ∧
+    faultState { exJob with zipMember := some 8 }.cfg exFSzip 6 [0, 2] = none := by decide
+
+/-! ## the `tmpdir=` argument: the temp file lives in a directory supplied by the caller -/
+
+/-- `atomic_write(path, tmpdir=D)` **as coded** ends with `shutil.rmtree(D)`: after a SUCCESSFUL write every
+path under the caller's directory is gone — whatever the caller kept there. -/
+theorem tmpdir_route_counter (j : Job) (fs : FS) (h : WFtmp j.cfg fs) (q : Path) (hq : under j.cfg.tmpdir q = true) :
+    (exec fs (programTmp j.cfg .rmtreeDir)).2 = none ∧ (exec fs (programTmp j.cfg .rmtreeDir)).1 q = none := by
+  rw [exec_programTmp_rmtree j.cfg fs h]; simp [hq]
+
+/-- **repaired** (only the temp FILE is removed when the directory was supplied by the caller,
+fixes/C19-atomic-write-keeps-caller-tmpdir.patch): a complete write leaves exactly the new content at the
+destination, no temp file, and every other path — in particular everything else in the caller's
+directory — untouched. -/
+theorem tmpdir_route_repaired (j : Job) (fs : FS) (h : WFtmp j.cfg fs) :
+    (exec fs (programTmp j.cfg .unlinkFile)).2 = none ∧
+    (exec fs (programTmp j.cfg .unlinkFile)).1 j.cfg.dest = some (.file j.cfg.newData) ∧
+    (exec fs (programTmp j.cfg .unlinkFile)).1 j.cfg.tmpfile = none ∧
+    (∀ q, q ≠ j.cfg.dest → q ≠ j.cfg.tmpfile → (exec fs (programTmp j.cfg .unlinkFile)).1 q = fs q) := by
+  rw [exec_programTmp_unlink j.cfg fs h]
+  refine ⟨rfl, ?_, ?_, ?_⟩
+  · simp [tmpCommitted, upd, (tmpfile_ne_dest j.cfg h.hne).symm]
+  · simp [tmpCommitted]
+  · intro q h1 h2; simp [tmpCommitted, tmpState, upd, h1, h2]
+
+/-- caller's directory `[0,2]` holding `precious = [0,2,7]` -/
+def exFStmp : FS := upd (upd exFS [0, 2] (some .dir)) [0, 2, 7] (some (.file [4, 4]))
+example : (exec exFStmp (programTmp exCfg .rmtreeDir)).1 [0, 2, 7] = none ∧
+    (exec exFStmp (programTmp exCfg .unlinkFile)).1 [0, 2, 7] = some (.file [4, 4]) ∧
+    (exec exFStmp (programTmp exCfg .unlinkFile)).1 [0, 1] = some (.file [5, 6, 7]) := by decide
+
+/-! ## resume at the granularity of the store's file operations -/
+open CogentModel.StoreWrite
+
+/-- every prefix of the file-operation sequence of an `apply_to` run is one of the crash points `(j, p)`
+(first `j` inputs processed completely, `p` file operations of the next one done) -/
+theorem every_prefix_is_a_crash_point (var : Variant) (idOf : Nat → Id) (app : Nat → Val) (s0 : FStore)
+    (inputs : List Nat) (k : Nat) :
+    ∃ j p, (runOps var idOf app s0 inputs).take k = crashOps var idOf app s0 inputs j p :=
+  take_runOps var idOf app s0 inputs k
+
+/-- **Repaired store write** (md5 file, then record file, each put in place by one rename — `atomic_write` —
+fixes/C19-datastore-atomic-record.patch): for every initial store, every app, inputs with distinct
+identifiers, and EVERY crash point inside or between record writes, interrupt + complete re-run ends
+with the same store (record, not-completed record and md5 file of every identifier) as an uninterrupted run. -/
+theorem resume_same_store_fine (idOf : Nat → Id) (app : Nat → Val) (s0 : FStore) (inputs : List Nat)
+    (hn : (inputs.map idOf).Nodup) (j p : Nat) (i : Id) :
+    resumed .atomicMd5First idOf app s0 inputs j p i = uninterrupted .atomicMd5First idOf app s0 inputs i :=
+  resume_pointwise .atomicMd5First idOf app s0 inputs hn j p (fun c v t _ => cell_resume_atomic c v t) i
+
+/-- **The store as coded** (`DataStoreDirectory._write`: create the record file, fill it, create the md5 file,
+fill it — plain `open`): the same holds only for crash points at record boundaries. -/
+theorem resume_same_store_fine_partial (idOf : Nat → Id) (app : Nat → Val) (s0 : FStore) (inputs : List Nat)
+    (hn : (inputs.map idOf).Nodup) (j p : Nat) (hp : p = 0 ∨ 4 ≤ p) (i : Id) :
+    resumed .inPlace idOf app s0 inputs j p i = uninterrupted .inPlace idOf app s0 inputs i :=
+  resume_pointwise .inPlace idOf app s0 inputs hn j p
+    (fun c v t ht => cell_resume_inPlace_boundary c v t (ht hp)) i
+
+/- FULL STATEMENT (not proved): `resume_same_store_fine_partial` without `hp`.  False for the code as it is:
+   `resume_same_store_fine_counter` (finding C19-datastore-record-written-in-place, the auditor's witness)
+   and, one step later, the md5 finding. -/
+
+/-- the auditor's witness: one input, killed after its record file was CREATED (p = 1): the empty file
+counts as completed, the re-run skips it, the record stays empty for ever; killed before the md5 file is
+created (p = 2): the record is complete but its md5 is never written. -/
+theorem resume_same_store_fine_counter :
+    let idOf : Nat → Id := fun m => m
+    let app : Nat → Val := fun m => .ok ⟨1, m, some m⟩
+    let s0 : FStore := fun _ => Cell.none
+    (resumed .inPlace idOf app s0 [7] 0 1 7).data = .empty ∧
+    (uninterrupted .inPlace idOf app s0 [7] 7).data = .full (.ok ⟨1, 7, some 7⟩) ∧
+    (resumed .inPlace idOf app s0 [7] 0 2 7).md5 = .absent ∧
+    (uninterrupted .inPlace idOf app s0 [7] 7).md5 = .full (.ok ⟨1, 7, some 7⟩) ∧
+    (resumed .atomicMd5First idOf app s0 [7] 0 1 7) = (uninterrupted .atomicMd5First idOf app s0 [7] 7) := by
+  decide
 
 /-! ## historical variants (NOT the current code)
 
